@@ -349,6 +349,25 @@ func (w *world) expectConnect(h hstate) bool {
 	return false
 }
 
+// recordUsable: the node record created at authorization carries a chain that
+// is valid now under a root the server still holds and that is valid now.
+func (w *world) recordUsable(h hstate, keyId string) bool {
+	n := h.st.NodeInfo(keyId)
+	roots, err := types.LoadRootCertificates(harness.Ctx, h.st.Clone())
+	if n == nil || err != nil {
+		return false
+	}
+	in := func(t time.Time, nb, na time.Time) bool { return t.After(nb) && t.Before(na) }
+	for _, b := range n.CertificateBundles {
+		for _, rt := range []*types.RootCertificate{roots.Current, roots.Next} {
+			if string(rt.CertificateDer) == string(b.CaCertificateDer) && in(h.now, rt.NotBefore.AsTime(), rt.NotAfter.AsTime()) && in(h.now, b.CertificateNotBefore.AsTime(), b.CertificateNotAfter.AsTime()) {
+				return true
+			}
+		}
+	}
+	return false
+}
+
 func (w *world) applyHist(h hstate, label string, r *engine.Report) (hstate, string, string) {
 	vclock.Freeze(h.now)
 	nh := hstate{st: h.st.Clone(), nd: h.nd.Clone(), now: h.now}
@@ -395,7 +414,19 @@ func (w *world) applyHist(h hstate, label string, r *engine.Report) (hstate, str
 		}
 		after, _ := types.LoadNodeCredentials(harness.Ctx, nh.nd.Clone(), nodeenrollment.CurrentId)
 		desc := fmt.Sprintf("dial at now=T0+%v in state {%s}", h.now.Sub(harness.T0), w.hKey(h))
+		// a server whose operator let both roots expire cannot complete any
+		// handshake, not even the fetch: such states are outside the clauses
+		serverUsable := false
+		if roots, err := types.LoadRootCertificates(harness.Ctx, h.st.Clone()); err == nil {
+			for _, rt := range []*types.RootCertificate{roots.Current, roots.Next} {
+				if h.now.After(rt.NotBefore.AsTime()) && h.now.Before(rt.NotAfter.AsTime()) {
+					serverUsable = true
+				}
+			}
+		}
 		switch {
+		case !hadCerts && !serverUsable:
+			r.Outcome("history:server-without-valid-root")
 		case !registered && !hadCerts:
 			if !errors.Is(derr, nodeenrollment.ErrNotAuthorized) {
 				return h, "pending:wrong-error", fmt.Sprintf("%s: an unregistered node's dial returned %v instead of the not-authorized error", desc, derr)
@@ -404,6 +435,11 @@ func (w *world) applyHist(h hstate, label string, r *engine.Report) (hstate, str
 				return h, "pending:stored-certificates", desc + ": an unregistered node's dial stored certificates"
 			}
 			r.Branch("history:not-authorized")
+		case registered && !hadCerts && !w.recordUsable(h, keyId):
+			// the certificates were minted at authorization time; if the operator's
+			// authorization is so old that the server has since dropped (or let
+			// expire) both roots they were issued under, the first dial cannot succeed
+			r.Outcome("history:authorization-outlived")
 		case registered && !hadCerts:
 			// first dial after authorization: fetches and connects with the same stored key
 			if derr != nil || conn == nil {
@@ -442,9 +478,9 @@ func (w *world) initialHist() hstate {
 }
 
 func (w *world) runHistories(c *engine.Ctx, r *engine.Report) {
-	depth := 7
+	depth := 8
 	if c.Thorough() {
-		depth = 10
+		depth = 14
 	}
 	labels := []string{"authorize", "dial", "advance", "rotate"}
 	b := &engine.BFS[hstate]{
@@ -561,7 +597,7 @@ func init() {
 	engine.Register(&engine.CheckDef{
 		ID:    "C07",
 		Level: "exploration",
-		Rule: "real protocol.Dial of a registered node against 9 hand-built server constructions (foreign roots; stale certificate minted for another nonce; minted without nonce; another node's client certificate; self-signed with the right nonce; chained to a trusted root with a wrong EKU / an expired leaf; right chain but certificate preference ignored / honoured), 16 honest configurations (storage wrapper x extra ALPN x client state x tcp/unix) against the real listener, the client configurations built for client state x 0..6 extra protocols (one per valid chain, each naming its own chain), and a BFS (quick depth 7, thorough 10) over {authorize, dial, advance 1/4 lifetime, rotate roots} in virtual time for a node that starts unregistered; " +
+		Rule: "real protocol.Dial of a registered node against 9 hand-built server constructions (foreign roots; stale certificate minted for another nonce; minted without nonce; another node's client certificate; self-signed with the right nonce; chained to a trusted root with a wrong EKU / an expired leaf; right chain but certificate preference ignored / honoured), 16 honest configurations (storage wrapper x extra ALPN x client state x tcp/unix) against the real listener, the client configurations built for client state x 0..6 extra protocols (one per valid chain, each naming its own chain), and a BFS (quick depth 8, thorough 14) over {authorize, dial, advance 1/4 lifetime, rotate roots} in virtual time for a node that starts unregistered; " +
 			"distinct_nontrivial = rogue kinds + honest configurations judged + canonical history states",
 		Assumptions: []string{"the two constructions that need a trusted root's private key are built with the server's own key (a real rogue could not)", "in histories a dial must succeed whenever the node holds a chain strictly inside its validity under a root the server still holds and that is valid; ties are not judged"},
 		Shards:      func(c *engine.Ctx) int { return 4 },
